@@ -5,7 +5,7 @@
 From Coq Require Import Sorting.Sorted.
 From DicomV Require Import Base.Endian Model.Vr Model.Header Model.Prim Model.Dataset Model.Writer Model.Reader
   Spec.Ps35 Proofs.HeaderP Proofs.PrimP Proofs.WriterP Proofs.ValidP Proofs.FlatP Proofs.ValueP Proofs.ReaderP
-  Proofs.RoundTripP Proofs.RewriteP.
+  Proofs.RoundTripP Proofs.RewriteP Proofs.ReadStepsP Proofs.CanonTreeP.
 Open Scope N_scope.
 
 (** Full statement (kept visible): for every canonical data set [es] (nested
@@ -24,6 +24,37 @@ Theorem C02_flat_partial : forall c d nochange es,
   exists obj, read_dataset c d (canon_encode c es) = Ok obj /\
               write_dataset c nochange false obj = Ok (canon_encode c es).
 Proof. intros c d nc es. exact (read_rewrite_flat c d nc es). Qed.
+
+(** Proved part 2: NESTED canonical streams in which every sequence and item
+    has UNDEFINED length (any depth), incl. encapsulated pixel data with offset
+    table and even-length fragments: reading the reference stream and writing
+    the object back reproduces the stream exactly, with the default writer
+    settings (this is the second sentence of the property) and also with
+    NoChange (all recorded lengths are undefined, the two strategies coincide).
+    Proof (Proofs/CanonTreeP.v): the reference encoding equals the writer's
+    encoding of the object [of_c] (structural induction over the spec-level
+    data set, value level by [C02_element]); that object is readable and its
+    own normal form; the nested round trip of C01 does the rest. *)
+Theorem C02_undefined_nesting : forall c d nochange es,
+  delim_ok c d -> Forall (canonical c d) es -> StronglySorted tag_lt (map ctag es) ->
+  exists obj, read_dataset c d (canon_encode c es) = Ok obj /\
+              write_dataset c nochange false obj = Ok (canon_encode c es).
+Proof. intros c d nc es. exact (read_rewrite_tree c d nc es). Qed.
+
+Example C02_nested_nonvacuous :
+  let d : dict_t := fun _ => None in
+  let es := [ CPrim (16, 16) PN [68; 111; 101; 32];
+              CSeq (64, 629) false [ (false, [CPrim (8, 256) SH [65; 32]; CSeq (8, 4416) false [(false, [])]]); (false, []) ];
+              CPix [] [[1; 2]; []] ] in
+  delim_ok ELE d /\ Forall (canonical ELE d) es /\ StronglySorted tag_lt (map ctag es).
+Proof.
+  cbv zeta. split; [reflexivity|]. split.
+  - repeat constructor; unfold canon_val, wf_tag, wf_bytes; cbn;
+      repeat (split || constructor); cbn; try reflexivity; try discriminate; try lia; try (intros; discriminate);
+      try (intros; congruence); try (intros H; exfalso; apply H; reflexivity);
+      try (unfold tag_lt, tag_ltb; reflexivity).
+  - repeat constructor; unfold tag_lt, tag_ltb; reflexivity.
+Qed.
 
 (** Element level: what was read from a canonical value field re-encodes to the same bytes. *)
 Theorem C02_element : forall c t v val p,
@@ -55,10 +86,15 @@ Proof.
   - vm_compute. reflexivity.
 Qed.
 
+Check C02_undefined_nesting : forall c d nochange es,
+  delim_ok c d -> Forall (canonical c d) es -> StronglySorted tag_lt (map ctag es) ->
+  exists obj, read_dataset c d (canon_encode c es) = Ok obj /\
+              write_dataset c nochange false obj = Ok (canon_encode c es).
 Check C02_flat_partial : forall c d nochange es,
   canon_flat c d es -> StronglySorted tag_lt (map ctag es) ->
   exists obj, read_dataset c d (canon_encode c es) = Ok obj /\
               write_dataset c nochange false obj = Ok (canon_encode c es).
+Print Assumptions C02_undefined_nesting.
 Print Assumptions C02_flat_partial.
 Print Assumptions C02_element.
 Print Assumptions C02_text_identity.
